@@ -818,6 +818,9 @@ func (r *runner) check(i int, op Op) error {
 		icannPfx[pfxHex(pfxOf(sum(s)))] = s
 	}
 	hostLabels := strings.Split(host, ".")
+	// The longest public-suffix rule matching the host is a private one.
+	_, longestICANN := publicsuffix.PublicSuffix(host)
+	underPrivate := !longestICANN && icannSuffix(host) != ""
 	for _, q := range qs {
 		lower := strings.ToLower(q.name)
 		if !strings.HasSuffix(lower, "."+r.sc.Suffix) {
@@ -833,7 +836,11 @@ func (r *runner) check(i int, op Op) error {
 				continue
 			}
 			if s, ok := icannPfx[g]; ok {
-				v := kernel.Violationf("icann-suffix-prefix-disclosed", "check of %q: question %q carries %s, the hash prefix of %q, an ICANN public suffix, which the statement excludes (allowed: %v)", op.Host, q.name, g, s, allowed)
+				cls := "icann-suffix-prefix-disclosed"
+				if underPrivate {
+					cls += "-under-private-suffix"
+				}
+				v := kernel.Violationf(cls, "check of %q: question %q carries %s, the hash prefix of %q, an ICANN public suffix, which the statement excludes (allowed: %v)", op.Host, q.name, g, s, allowed)
 				if r.c.Tolerate(v) || replayTolerated[v.Class] {
 					continue
 				}
@@ -899,7 +906,9 @@ func (r *runner) check(i int, op Op) error {
 
 	// ---- verdict.
 	if o.failed {
-		if lk.fired == "lookup_error" {
+		if lk.fired == "lookup_error" || lk.fired == "servfail" {
+			// The lookup failed: the check may fail (it must not give a wrong
+			// verdict, and later checks must not suffer).
 			r.c.Probe("check_failed_on_lookup_error")
 			return nil
 		}
@@ -921,7 +930,11 @@ func (r *runner) check(i int, op Op) error {
 		// Blocked although no candidate's full hash is listed.
 		for _, s := range icannParents(host) {
 			if lk.db[sum(s)] {
-				v = kernel.Violationf("blocked-by-icann-suffix-hash", "%s; the database lists %q, an ICANN public suffix above the name, which the statement excludes from the names that decide", desc, s)
+				cls := "blocked-by-icann-suffix-hash"
+				if underPrivate {
+					cls += "-under-private-suffix"
+				}
+				v = kernel.Violationf(cls, "%s; the database lists %q, an ICANN public suffix above the name, which the statement excludes from the names that decide", desc, s)
 			}
 		}
 		if v == nil && fromCache {
